@@ -153,6 +153,10 @@ static void upipe_chunk_stream_flush(struct upipe *upipe)
                ? upipe_chunk_stream->size
                : ((remaining / upipe_chunk_stream->align)
                            * upipe_chunk_stream->align);
+        if (unlikely(size == 0)) {
+            /* fewer octets than the alignment are left: drop them */
+            break;
+        }
 
         uref = upipe_chunk_stream_extract_uref_stream(upipe, size);
         if (unlikely(!uref)) {
